@@ -93,7 +93,30 @@ func (r *verifyRun) mint(kind string, expIn time.Duration, jti string) *vtok {
 	case "garbage":
 		t.valid = false
 	}
+	var donor *vtok // samesig: another token's signature segment under a rewritten payload
+	if kind == "samesig" || kind == "sameprefix" {
+		for _, o := range r.toks {
+			if o.kind == "valid" {
+				donor = o
+			}
+		}
+		if donor == nil {
+			kind, t.kind = "badsig", "badsig"
+		}
+		cl["sub"] = "root"
+		t.valid = false
+	}
 	t.raw = stdToken(k, cl)
+	if donor != nil && kind == "samesig" {
+		mine, theirs := strings.Split(t.raw, "."), strings.Split(donor.raw, ".")
+		t.raw = mine[0] + "." + mine[1] + "." + theirs[2]
+	}
+	if donor != nil && kind == "sameprefix" { // the donor's header and payload under a signature with one bit flipped
+		theirs := strings.Split(donor.raw, ".")
+		sig, _ := b64.DecodeString(theirs[2])
+		sig[len(sig)/3] ^= 0x04
+		t.raw = theirs[0] + "." + theirs[1] + "." + b64.EncodeToString(sig)
+	}
 	if kind == "badsig" {
 		// flip one bit in the decoded signature value
 		parts := strings.Split(t.raw, ".")
@@ -168,7 +191,7 @@ func familyVerify(t *testing.T) {
 				R = 3
 			}
 			r := newVerifyRun(R)
-			kinds := []string{"valid", "valid", "valid", "valid", "future", "badsig", "iss", "aud", "nosub", "garbage"}
+			kinds := []string{"valid", "valid", "valid", "valid", "future", "badsig", "iss", "aud", "nosub", "garbage", "samesig", "sameprefix"}
 			exps := []time.Duration{5 * time.Minute, 30 * time.Minute, 2 * time.Hour, 26 * time.Hour, 72 * time.Hour, -time.Hour, 90 * time.Second}
 			nTok := 3 + rng.Intn(10)
 			for i := 0; i < nTok; i++ {
@@ -208,6 +231,17 @@ func familyVerify(t *testing.T) {
 				vsleep(2 * time.Second)
 				r.verify(tk, false)
 				vsleep(100 * time.Second)
+				r.verify(tk, false)
+			}
+			if sc%5 == 4 { // a token verified (and cached), then other strings sharing one of its segments: signature kept under a rewritten payload; payload kept under a damaged signature
+				tk := r.mint("valid", 30*time.Minute, "")
+				r.verify(tk, false)
+				forged := r.mint("samesig", 30*time.Minute, "")
+				r.verify(forged, false)
+				r.verify(tk, false)
+				r.verify(forged, false)
+				damaged := r.mint("sameprefix", 30*time.Minute, "")
+				r.verify(damaged, false)
 				r.verify(tk, false)
 			}
 			if sc%5 == 0 { // the textbook sequence: verify, revoke, verify at once, wait 25 h, verify
